@@ -167,7 +167,7 @@ where
     {
         if g.is_none() {
             self.0
-                .insert(s, p, o)
+                .remove(s, p, o)
                 .map_err(GraphAsDatasetMutationError::Graph)
         } else {
             Ok(false)
